@@ -326,6 +326,15 @@ Proof. vm_cast_no_check (conj (eq_refl true) (eq_refl true)). Qed.
 Lemma C07_m24_obl : match method_class "24" with Some g => ok24 g | None => false end = true.
 Proof. vm_cast_no_check (eq_refl true). Qed.
 
+Lemma C07_m68_obl : match method_class "68" with Some g => ok68 g | None => false end = true.
+Proof. vm_cast_no_check (eq_refl true). Qed.
+
+Theorem C07_m68 : method_statement "68".
+Proof.
+  pose proof C07_m68_obl as O. unfold method_statement. method_intro "68"%string.
+  rewrite (m68_method nd_runs C07_nd_obl german_table g O account Hdig Hlen). reflexivity.
+Qed.
+
 Theorem C07_m24 : method_statement "24".
 Proof.
   pose proof C07_m24_obl as O. unfold method_statement. method_intro "24"%string.
@@ -483,12 +492,38 @@ Proof. intros b en name Hb He Hf. exact (national_unimplemented the_table the_al
 
 Print Assumptions C07_national.
 Print Assumptions C07_unlisted.
+
+(* ---- summary: 38 of the 39 implemented methods (the 39th, 76: C07_m76_partial / C07_m76_refuted) ------------------- *)
+Definition proven_codes : list string :=
+  ["00"; "01"; "02"; "03"; "04"; "05"; "06"; "07"; "08"; "09"; "10"; "11"; "13"; "14"; "15"; "16"; "17"; "18"; "19"; "20";
+   "21"; "22"; "23"; "24"; "25"; "26"; "28"; "32"; "33"; "34"; "38"; "60"; "61"; "63"; "68"; "88"; "91"; "99"]%string.
+
+Theorem C07_methods : forall code, In code proven_codes -> method_statement code.
+Proof.
+  intros code H. unfold proven_codes in H.
+  repeat (destruct H as [<-|H];
+    [first [exact C07_m08 | exact C07_m09 | exact C07_m63 | exact C07_m99 | exact C07_m88 | exact C07_m26 | exact C07_m25
+           | exact C07_m16 | exact C07_m23 | exact C07_m91 | exact C07_m17 | exact C07_m21 | exact C07_m61 | exact C07_m24
+           | exact C07_m68
+           | (eapply C07_std; unfold std_methods; repeat (first [left; reflexivity | right]))]|]).
+  destruct H.
+Qed.
+
+(* every method code the registry knows is one of these or 76 *)
+Lemma C07_codes_obl :
+  forallb (fun kv => if startswith (tx "DE:") (fst kv)
+                     then existsb (fun c => text_eqb (fst kv) (tx "DE:" ++ s2t c)) ("76"%string :: proven_codes) else true)
+          registered = true.
+Proof. vm_cast_no_check (eq_refl true). Qed.
+
 Print Assumptions C07_only_account.
+Print Assumptions C07_methods.
 Print Assumptions C07_m17.
 Print Assumptions C07_m21.
 Print Assumptions C07_m76_refuted.
 Print Assumptions C07_m61.
 Print Assumptions C07_m24.
+Print Assumptions C07_m68.
 Print Assumptions C07_m76_partial.
 Print Assumptions C07_m88.
 Print Assumptions C07_m26.
